@@ -13,6 +13,7 @@ import (
 	"path/filepath"
 	"sort"
 	"strings"
+	"sync"
 	"time"
 )
 
@@ -328,13 +329,24 @@ func runC16(c *Ctx) {
 			foi = foiPath
 		}
 		r := Run(dir, 10*time.Second, 4096, []string{"GOMAXPROCS=2"}, filepath.Join(c.Bin, "fc"), foi, "m.fo")
+		if r.TimedOut {
+			// a loaded machine can starve a process for seconds: confirm alone, with a long limit
+			c16Confirm.Lock()
+			os.Remove(filepath.Join(dir, "gen_m.go"))
+			if pre {
+				MustWrite(filepath.Join(dir, "gen_m.go"), marker)
+			}
+			r = Run(dir, 120*time.Second, 4096, []string{"GOMAXPROCS=2"}, filepath.Join(c.Bin, "fc"), foi, "m.fo")
+			c16Confirm.Unlock()
+			c.Count("timeouts_rechecked")
+		}
 		c.Count("real_process_runs")
 		out := r.Stdout + r.Stderr
 		gen, gerr := os.ReadFile(filepath.Join(dir, "gen_m.go"))
 		rep := map[string]any{"case": cs, "fc_exit": r.Exit, "fc_output": trunc(out, 2000), "how": "fc <foi> m.fo under timeout 10s, ulimit -v 4GB"}
 		switch {
 		case r.TimedOut:
-			c.Violate("hang", "fc does not terminate (killed after 10 s) on a "+cs.Kind+" input", rep, false)
+			c.Violate("hang", "fc does not terminate (killed after 10 s, then alone after 120 s) on a "+cs.Kind+" input", rep, false)
 		case c16BadOutput(out) != "":
 			c.Violate("fatal", "fc dies of a Go runtime fatal error ("+c16BadOutput(out)+") on a "+cs.Kind+" input", rep, false)
 		case r.Exit == 0:
@@ -366,6 +378,8 @@ func runC16(c *Ctx) {
 	c16Scanner(c, rng, cases)
 	c.Lap("scanner-model")
 }
+
+var c16Confirm sync.Mutex
 
 func trunc(s string, n int) string {
 	if len(s) > n {
@@ -492,7 +506,7 @@ func c16Faults(c *Ctx) {
 		dir := filepath.Join(c.Work, fmt.Sprintf("fault%d", i))
 		os.MkdirAll(dir, 0o755)
 		args := t.setup(dir)
-		r := Run(dir, 10*time.Second, 4096, []string{"GOMAXPROCS=2"}, fc, args...)
+		r := Run(dir, 60*time.Second, 4096, []string{"GOMAXPROCS=2"}, fc, args...)
 		c.Eval("fault:"+t.name, true)
 		c.Count("fault=" + t.name)
 		msg := ""
